@@ -107,6 +107,8 @@ def _class_job(job):
     adj_c = tables.rep_graph(n, c)
     adj_d = tables.entries(n, conn)[d]["adj"]
     base = [rnd.randrange(6) for _ in range(n)]
+    if seed >= 10000000:          # full-layer family: the two fixed qubits enumerate all 36 Clifford pairs
+        base[0], base[1] = (seed - 10000000) // 6, (seed - 10000000) % 6
     pj = dict(family="Fc", n=n, conn=conn, cls=c, adj=adj_c, base_layer=base, window=window, B=None, signs=("affine", 0), seed=seed)
     names = ["l%d%s" % (q, k) for q in window for k in "abcd"]
     core.tt_setup(names)
@@ -134,6 +136,53 @@ def _class_job(job):
     leaves = res.leaves
     res.leaves = leaves[:1]
     return dict(res=res.to_json(), cands=cands, none=sum(1 for l in leaves if l.get("result") == "none"), layer=sum(1 for l in leaves if l.get("result") == "layer"))
+
+
+def _self_job(job):
+    """every graph against itself: the graph state's own generators (one qubit carrying a symbolic Clifford) must be
+    mapped into the graph's group - for arbitrary graphs, not only table / representative graphs.  The NATIVE search
+    is run on a model of every leaf as well (machine-integer semantics) and must agree."""
+    n, gids = job
+    core.tt_setup(["l0a", "l0b", "l0c", "l0d"])
+    fln = loader.native("find_local_clifford_layer")
+    grn = loader.native("graph")
+    cands = []
+    res_all = core.Result()
+    nn = nl = 0
+    for gid in gids:
+        adj = tables.adj_of_id(n, gid)
+
+        def build():
+            L = [(var("l0a"), var("l0b"), var("l0c"), var("l0d"))] + [(1, 0, 0, 1)] * (n - 1)
+            return spec.layered_graph_tableau(adj, L)
+
+        def fn():
+            ctx = Ctx.cur
+            a, b, c, d = [var("l0" + k) for k in "abcd"]
+            ctx.assume(lxor(land(a, d), land(b, c)))
+            X, Z = build()
+            info = search_obligations(ctx, n, n, X, Z, adj)
+            env = ctx.model_env()
+            Rm, Sm = spec.env_tableau(X, Z, env)
+            try:
+                A = fln.find_local_clifford_layer(np.array(Rm, dtype=np.int8), np.array(Sm, dtype=np.int8), grn.Graph(np.array(adj, dtype=np.int8)))
+                native = "none" if A is None else "layer"
+            except Exception as e:
+                native = "raise:" + type(e).__name__
+            ctx.prove("the native search (int8 arithmetic) agrees with the symbolic run on graph %d (native: %s, symbolic: %s)" % (gid, native, info.get("result")),
+                      1 if native == info.get("result") else 0)
+            return info
+        res = explore(fn)
+        for v in res.violations[:1]:
+            X, Z = build()
+            Rm, Sm = spec.env_tableau(X, Z, v["model"])
+            cands.append(dict(kind="search", n=n, m=n, R=Rm, S=Sm, adj=adj, label=v["label"]))
+        res.violations = []
+        nn += sum(1 for l in res.leaves if l.get("result") == "none")
+        nl += sum(1 for l in res.leaves if l.get("result") == "layer")
+        res.leaves = []
+        res_all.merge(res)
+    return dict(res=res_all.to_json(), cands=cands, none=nn, layer=nl)
 
 
 def _perturb_job(job):
@@ -257,11 +306,13 @@ def run(tier, seed):
     ck = harness.Check(PID, tier, seed)
     ck.encode("find_local_clifford_layer.find_local_clifford_layer", "find_local_clifford_layer.check_LC", "find_local_clifford_layer.local_clifford_layer_to_circuit",
               "find_local_clifford_layer.generate_single_qubit_symplectic/generate_local_clifford_symplectic", "f2_algebra.null_space/rank/rref/mat_mul/add")
-    ck.bounds += ["n=2: every set of m=1,2 Paulis (unconstrained: also non-commuting / dependent), both graphs; n=3: m=1 and m=2 complete for every graph on 3 vertices, m=3: a seeded %s of the 2048 (graph, 8-bit) partitions of the 2^18 x 8 input space" % ("16" if tier == "quick" else "512"),
+    ck.bounds += ["n=2: every set of m=1,2 Paulis (unconstrained: also non-commuting / dependent), both graphs; n=3: m=1 complete for every graph on 3 vertices, m=2 complete for every graph (quick: 3 seeded graphs), m=3: a seeded %s of the 2048 (graph, 8-bit) partitions of the 2^18 x 8 input space" % ("16" if tier == "quick" else "512"),
                   "n=4..6: L|G_c> with L symbolic on a 1-2 qubit window against the graph of the own class and of other classes, full generator sets and subsets (m<n); product class vs empty graph on 6 qubits (largest kernel)",
                   "completeness: per 'None' path one exists-layer query over all 6^n layers and all inputs on the path; soundness: per 'layer' path the defining equation for all inputs on the path",
                   "n=4,5 (m=n): seeded random unconstrained operator sets with 6 symbolic entries each (64 neighbours per seed) against a seeded graph - reaches systems with a trivial kernel",
                   "all 3^n product stabilizer groups for n=4,5 (thorough: also n=6; quick n=6: 18 seeded ones) with per-qubit Pauli symbolic, against the empty graph: the largest kernels (dimension 3n)",
+                  "every graph on n<=4 vertices (quick n=5,6: ~150-200 graphs each, stratified by edge count; thorough: all 1024 / 32768) against itself with one symbolic Clifford, incl. agreement of the NATIVE search (machine-integer semantics) on a model of every leaf",
+                  "all 6^5 local-Clifford layers for one class per entanglement structure of n=5 (quick: seeded 2 structures) against its own graph",
                   "gate emission: symbolic 2x2 block at every qubit position n=1..6"]
     ck.outside += ["n>=4 operator sets that are not local-Clifford images of class graphs restricted to generator subsets"]
     rnd = random.Random(seed)
@@ -269,10 +320,12 @@ def run(tier, seed):
     for m in (1, 2):
         for gid in range(2):
             jobs.append(("s", (2, m, gid, ())))
+    g32 = list(range(8)) if tier == "thorough" else sorted(rnd.sample(range(8), 3))
     for gid in range(8):
         jobs.append(("s", (3, 1, gid, ())))
-        for bits in itertools.product([0, 1], repeat=2):
-            jobs.append(("s", (3, 2, gid, tuple(zip(["tx0_0", "tz0_0"], bits)))))
+        if gid in g32:
+            for bits in itertools.product([0, 1], repeat=2):
+                jobs.append(("s", (3, 2, gid, tuple(zip(["tx0_0", "tz0_0"], bits)))))
     names = ["tx0_0", "tz0_0", "tx1_0", "tz1_0", "tx2_0", "tz2_0", "tx0_1", "tz0_1"]
     combos = [(gid, bits) for gid in range(8) for bits in itertools.product([0, 1], repeat=8)]
     if tier == "quick":
@@ -303,6 +356,28 @@ def run(tier, seed):
         jobs.append(("c", (6, 0, 0, "all", [0], [0, 1, 2, 3], seed + 20)))
     for i in range(24 if tier == "quick" else 200):
         jobs.append(("p", (4 if i % 3 else 5, 6, seed * 1000 + i)))
+    # full local-Clifford layer (all 6^5 layers) for one class per entanglement structure of n=5, against its own graph:
+    # two qubits fixed per job (36 jobs), the other three symbolic
+    structs5 = pipeline._structure_reps(5)
+    chosen = structs5 if tier == "thorough" else rnd.sample(structs5, 2)
+    for c in chosen:
+        for b0 in range(6):
+            for b1 in range(6):
+                jobs.append(("c", (5, c, c, "all", [2, 3, 4], list(range(5)), 10000000 + b0 * 6 + b1)))
+    # every graph against itself (arbitrary target graphs), with native agreement
+    for n in (3, 4, 5, 6):
+        total = 2 ** (n * (n - 1) // 2)
+        if n <= 4 or tier == "thorough":
+            gids = list(range(total))
+        else:
+            # stratified by edge count (uniform over 0..15 edges, then uniform within): dense graphs are as likely as sparse
+            by = {}
+            for g in range(total):
+                by.setdefault(bin(g).count("1"), []).append(g)
+            gids = sorted(set(rnd.choice(by[k]) for k in by for _ in range(14)))
+        chunk = max(1, len(gids) // 48)
+        for i in range(0, len(gids), chunk):
+            jobs.append(("S", (n, gids[i:i + chunk])))
     for n in (4, 5, 6):
         if n < 6 or tier == "thorough":
             pn = ["k0.0", "k0.1", "k1.0", "k1.1"] + (["k2.0", "k2.1"] if n == 6 else [])
@@ -332,6 +407,8 @@ def run(tier, seed):
             part = "perturbed-random n=%d" % arg[0]
         elif kind == "P":
             part = "product-groups n=%d" % arg[0]
+        elif kind == "S":
+            part = "graph-vs-itself n=%d" % arg[0]
         else:
             part = "gate-emission n=%d" % arg
         ck.add(part, res, sample=1 if (kind == "g" and arg == 3) or (kind == "s" and arg[1] == 2 and arg[2] == 1 and arg[0] == 3) else 0)
@@ -353,7 +430,7 @@ def run(tier, seed):
 
 def _dispatch(job):
     kind, arg = job
-    return {"s": _small_job, "c": _class_job, "g": _gates_job, "p": _perturb_job, "P": _product_job}[kind](arg)
+    return {"s": _small_job, "c": _class_job, "g": _gates_job, "p": _perturb_job, "P": _product_job, "S": _self_job}[kind](arg)
 
 
 # ------------------------------------------------------------------------------------------------ replay
